@@ -150,6 +150,14 @@ def gen_calls(rng: random.Random, w: int) -> List[dict]:
         for k, ds in enumerate(order):
             calls.append({"op": "seg", "s": base + 4 * k, "l": rng.choice([2, 4]), "ds": ds, "dl": 2})
         return calls
+    if rng.random() < 0.12 and pool >= 4:
+        # two segments whose data windows are neighbours or overlap by one word or more (odd data starts)
+        a = rng.choice([0, 1, 2])
+        b = a + rng.choice([1, 1, 2, 3, -1])
+        base = rng.choice([0, 64, 1 << 14])
+        calls.append({"op": "seg", "s": base, "l": rng.choice([2, 4]), "ds": a, "dl": 2})
+        calls.append({"op": "seg", "s": base + 8, "l": rng.choice([2, 4]), "ds": max(0, b), "dl": 2})
+        return calls
     for _ in range(nseg):
         s = rng.choice(starts)
         if rng.random() < 0.08:
@@ -252,7 +260,7 @@ CHECK_DEADLOCK FALSE
 def mc_jobs(quick: bool):
     jobs = []
     # w = 8
-    jobs.append(("w8", mc_cfg(8, [[1, 255, 16, 40], [7, 9], []], [0, 2, 3, 6], [0, 2, 4, 5], [0, 2], [0, 2, 3], 2, True)))
+    jobs.append(("w8", mc_cfg(8, [[1, 255, 16, 40], [7, 9], []], [0, 2, 3, 6], [0, 2, 4, 5], [0, 1, 2], [0, 2, 3], 2, True)))
     # w = 16: start * w wraps modulo 2^16 (relative jumps), high starts
     jobs.append(("w16", mc_cfg(16, [[513, 65535, 4096, 32], [258, 772]], [0, 4094, 4096, 65534], [2, 4], [0, 2], [0, 2, 4], 2, True)))
     # three segments claiming data out of append order / sharing it (allowed in versions 0/1 only)
